@@ -16,6 +16,7 @@ macro_rules! with_property {
             "C06" => Some($f::<$crate::props::c06::C06>($($arg),*)),
             "C07" => Some($f::<$crate::props::c07::C07>($($arg),*)),
             "C08" => Some($f::<$crate::props::c08::C08>($($arg),*)),
+            "C09" => Some($f::<$crate::props::c09::C09>($($arg),*)),
             "C10" => Some($f::<$crate::props::c10::C10>($($arg),*)),
             "C11" => Some($f::<$crate::props::c11::C11>($($arg),*)),
             "C12" => Some($f::<$crate::props::c12::C12>($($arg),*)),
@@ -23,10 +24,13 @@ macro_rules! with_property {
             "C14" => Some($f::<$crate::props::c14::C14>($($arg),*)),
             "C15" => Some($f::<$crate::props::c15::C15>($($arg),*)),
             "C16" => Some($f::<$crate::props::c16::C16>($($arg),*)),
+            "C17" => Some($f::<$crate::props::c17::C17>($($arg),*)),
+            "C18" => Some($f::<$crate::props::c18::C18>($($arg),*)),
+            "C19" => Some($f::<$crate::props::c19::C19>($($arg),*)),
             "C20" => Some($f::<$crate::props::c20::C20>($($arg),*)),
             _ => None,
         }
     };
 }
 
-pub const ALL_IDS: &[&str] = &["C01", "C02", "C03", "C04", "C05", "C06", "C07", "C08", "C10", "C11", "C12", "C13", "C14", "C15", "C16", "C20"];
+pub const ALL_IDS: &[&str] = &["C01", "C02", "C03", "C04", "C05", "C06", "C07", "C08", "C09", "C10", "C11", "C12", "C13", "C14", "C15", "C16", "C17", "C18", "C19", "C20"];
